@@ -2,8 +2,9 @@
 import Driver.Common
 import GivaroModel.Model.CRT
 import GivaroModel.Spec.CRTSpec
--- @driver-mode crt Driver.crtLine
-namespace Driver
+-- @driver-mode crt Driver.CRT.crtLine
+namespace Driver.CRT
+open Driver
 open Givaro.Model.CRT
 open Givaro.Spec.CRT
 
@@ -212,4 +213,4 @@ def crtLine (line : String) : String :=
         else "BAD key | " ++ line
       | _, _ => "BAD parse | " ++ line
 
-end Driver
+end Driver.CRT
